@@ -1,5 +1,7 @@
 """C09 generator: system rules of all five metric types x both strategies, thresholds around the values that real
 inbound traffic produces (QPS, concurrency, avg RT) and around injected load/CPU readings."""
+import importlib.util as _ilu, os as _os
+_ms = _ilu.spec_from_file_location("worldmix", _os.path.join(_os.path.dirname(__file__), "worldmix.py")); MIX = _ilu.module_from_spec(_ms); _ms.loader.exec_module(MIX)
 LEVEL = "proof"
 MODEL = "lean/Sentinel/World.lean (SysRule.trips, bbrExceeded, sysCheck, World.sysObs, World.build)"
 RULE = ("1-3 system rules (metric x strategy), thresholds from small integers/fractions so that below/equal/above the observed value all occur; "
@@ -53,6 +55,12 @@ def gen_case(rng):
     return ops
 
 
-def gen(rng, tier):
+def gen_own(rng, tier):
     n = 500 if tier == "quick" else 25000
     return [gen_case(rng) for _ in range(n)]
+
+
+def gen(rng, tier):
+    """the property's own streams, with every 8th case taken from the shared mixed-world stream (gen/worldmix.py)"""
+    cases = gen_own(rng, tier)
+    return [c if i % 8 != 7 else MIX.gen_mix(rng) for i, c in enumerate(cases)]
